@@ -56,6 +56,17 @@ theorem c19_field_txn_refines (H : FHeap V) (t : Table V) (hI : OInv H t) (me : 
     OInv ((FTx.start H me).run ops).heap (tableAfter t ops) :=
   (run_spec hI me hown ops).1
 
+/-- every state a transaction `0` builds from the empty index (the driver's base states) satisfies
+the hypotheses of the theorems below: the invariant holds and all posting objects belong to `0` -/
+theorem c19_field_reachable_base (ops0 : List (TOp V)) :
+    let H := ((FTx.start ({} : FHeap V) 0).run ops0).heap
+    OInv H (tableAfter [] ops0) ∧ ∀ o, (AMap.get H.post o).isSome → o.1 = 0 := by
+  refine ⟨c19_field_txn_refines _ _ c19_field_init 0 (fun _ h => by simp at h) ops0, ?_⟩
+  intro o ho
+  rcases run_owner c19_field_init 0 (fun _ h => by simp at h) ops0 o ho with h | h
+  · simp at h
+  · exact h
+
 /-- **Conflict or serial – field index.**  `a` and `b` start from the committed state `H`
 (invariant `OInv H t`), run `opsA` / `opsB` on disjoint docids; `a` commits, then `b`.
 If the commit does not raise ConflictError (`commitSecond … = some M`), the stored heap `M`
@@ -276,6 +287,19 @@ theorem c19_keyword_txn_refines (c : KCfg) (hc : c.clearReplaced = true) (H : KH
   (krun_spec hI c hc me hown ops).1
 
 open Hyp.Keyword Hyp.Keyword.Spec in
+/-- the driver's base states of the keyword index satisfy the hypotheses of the theorems below -/
+theorem c19_keyword_reachable_base (c : KCfg) (hc : c.clearReplaced = true) (ops0 : List (TOp (List K))) :
+    let H := (KTx.run c (KTx.start ({} : KHeap K) 0) ops0).heap
+    KOInv H (tableAfterK [] ops0) ∧ ∀ o, (AMap.get H.post o).isSome → o.1 = 0 := by
+  refine ⟨c19_keyword_txn_refines c hc _ _ c19_keyword_init 0 (fun _ h => by simp at h) ops0, ?_⟩
+  intro o ho
+  have := (krun_spec c19_keyword_init c hc 0 (fun _ h => by simp at h) ops0).2.f.fresh_owner o ho
+  rw [krun_me] at this
+  rcases this with h | h
+  · simp at h
+  · exact h
+
+open Hyp.Keyword Hyp.Keyword.Spec in
 /-- **Conflict or serial – keyword index** (repaired code, any `tree_threshold`, crossing it in
 either transaction included).  `a` and `b` start from the committed state `H` (object-level C02
 invariant), run `opsA` / `opsB` on disjoint docids; `a` commits, then `b`.  If the commit does not
@@ -347,5 +371,17 @@ theorem c19_keyword_merged_observes_serial (c : KCfg) (hc : c.clearReplaced = tr
   have vS : ViewOK (S.view c.thr).view (tableAfterK t (opsA ++ opsB)) := by
     rw [← view_erase]; exact viewOK_of_inv iS.toInvCore
   rw [applyIndex_sem vM, applyIndex_sem vS]
+
+/-- non-vacuity of `c19_keyword_conflict_or_serial`: both transactions change the posting of
+keyword 7 (no threshold crossing), every object merges, the stored posting is {1, 3, 4, 5} -/
+example :
+    let c : KCfg := { thr := 10 }
+    let H := d20Base c
+    let a := KTx.run c (KTx.start H 1) [.index 5 (some [7, 8])]
+    let b := KTx.run c (KTx.start H 2) d20OpsB
+    ∃ M, commitSecondK H a b = some M ∧ (1 ∈ M.posting 7 ∧ 3 ∈ M.posting 7 ∧ 4 ∈ M.posting 7 ∧ 5 ∈ M.posting 7) ∧
+      (M.posting 7).length = 4 ∧ M.posting 8 = [5] ∧ M.len = 4 := by
+  refine ⟨_, rfl, ?_⟩
+  decide
 
 end Hyp.CIdx
